@@ -453,11 +453,15 @@ pub fn generate_unbalanced(_ctx: &mut Ctx, seed: u64, i: usize) -> Case {
             (p.clone(), lines.into_iter().map(|l| (l, None)).collect())
         }).collect())
     } else { None };
+    // diff mode may come with positional globs as well: they match some files, not the damaged one - which is still in scope
+    // through the diff and still walked (it is a visible file of the tree)
+    let with_globs = diff_mode && rng.chance(1, 3);
+    let allow_some: Vec<String> = walk.iter().filter(|p| **p != bad_path && rng.chance(1, 2)).cloned().collect();
     Case {
         files,
-        allow: if diff_mode { vec![] } else { walk.clone() },
-        walk: if diff_mode { vec![] } else { walk },
-        scan: !diff_mode,
+        allow: if with_globs { allow_some } else if diff_mode { vec![] } else { walk.clone() },
+        walk: if with_globs { walk } else if diff_mode { vec![] } else { walk },
+        scan: !diff_mode || with_globs,
         changes,
         patterns,
         meta: json!({"gen": "unbalanced", "i": i, "bad": bad_path, "op": op, "diff_mode": diff_mode}),
